@@ -181,6 +181,33 @@ def run(cx, tier='quick'):
                         rep.bad('DET-ENV', '::'.join(m.path), 'use=%s' % p, 'imports an environment-dependent API `%s`' % p, m.file, it['l'])
         rep.ok('DET-STATE', 'module %s: %d items scanned' % ('::'.join(m.path) or 'crate', len(m.items)))
     check_mir(cx, rep, seen_iter)
+    # DET-PROFILE: the expansion may not depend on the profile the macro was built with: no state change inside debug_assert!(..)
+    # (compiled out without debug assertions) and no branch on cfg!(debug_assertions)
+    MUTATORS = {'insert', 'push', 'push_str', 'extend', 'append', 'remove', 'pop', 'clear', 'retain', 'truncate', 'drain', 'take', 'replace', 'swap',
+                'entry', 'get_mut', 'iter_mut', 'sort', 'sort_by', 'dedup', 'next', 'parse', 'parse_args', 'push_punct', 'push_value', 'make_where_clause'}
+    nprof = 0
+    for f in cx.crate.fns:
+        fw = cx.fw(f)
+        for ev in fw.events:
+            if ev.kind == 'macro' and ev.name in ('debug_assert', 'debug_assert_eq', 'debug_assert_ne'):
+                nprof += 1
+                bad_ = None
+                for x in walk_json(ev.mac.get('args') or []):
+                    if isinstance(x, dict) and x.get('k') == 'MethodCall' and x.get('method') in MUTATORS:
+                        bad_ = '.%s(..)' % x['method']
+                    if isinstance(x, dict) and x.get('k') in ('Assign', 'Try', 'Return', 'Break', 'Continue'):
+                        bad_ = bad_ or x['k'].lower()
+                if ev.mac.get('args') is None:
+                    bad_ = 'unparsed arguments'
+                if bad_:
+                    rep.bad('DET-PROFILE', f.qname, 'debug_assert@%s' % (ev.mac.get('text') or '')[:40].replace(' ', ''),
+                            'a state change (%s) inside `%s!`: it disappears when the macro crate is built without debug assertions, so the expansion depends on the build profile' % (bad_, ev.name),
+                            f.file, ev.line)
+                else:
+                    rep.ok('DET-PROFILE', '%s|%s!(%s)' % (f.qname, ev.name, (ev.mac.get('text') or '')[:40].replace(' ', '')))
+            if ev.kind == 'macro' and ev.name == 'cfg' and 'debug_assertions' in (ev.mac.get('text') or ''):
+                rep.bad('DET-PROFILE', f.qname, 'cfg!(debug_assertions)', 'a branch on cfg!(debug_assertions): the expansion depends on the build profile', f.file, ev.line)
+    rep.floor('DET-PROFILE', 20, '(30 debug_assert! sites today)')
     # statics declared inside function bodies
     for f in cx.crate.fns:
         for node in walk_json(f.block):
